@@ -1,6 +1,9 @@
 import PhononModel.Lemmas.TetraAnalysis
 import PhononModel.Lemmas.TetraTop
 import PhononModel.Model.Dos
+import PhononModel.Lemmas.DosSmearing
+import PhononModel.Lemmas.DosCoef
+import PhononModel.Lemmas.TetraMesh
 import PhononModel.Lemmas.Basic
 import Mathlib.Algebra.BigOperators.Ring.Finset
 /-!
@@ -239,6 +242,161 @@ theorem dos_nonneg (nq nb : Nat) (W : Fin nq → Fin nb → K) (hW : ∀ q b, 0 
   simp only [sumFin_eq]
   exact Finset.sum_nonneg fun q _ => Finset.sum_nonneg fun b _ => hW q b
 
+/-- projected DOS per atom (`ProjectedDos` default): with normalised eigenvectors they add up to the total DOS.
+Eigenvector components are Cartesian, so the lattice (orthogonal or not) does not enter. -/
+theorem pdos_atom_sum_total (nq nb n : Nat) (W : Fin nq → Fin nb → K) (e : Fin nq → Fin nb → Fin n → Fin 3 → K × K)
+    (hnorm : ∀ q b, ∑ a, ∑ x, Dos.abs2 (e q b a x) = 1) :
+    ∑ a, Dos.projectedDos nq nb n W (fun q a b => Dos.coefAtom (e q b) a) a = Dos.totalDos nq nb W := by
+  apply pdos_sum_total
+  intro q b
+  rw [← hnorm q b]
+  apply Finset.sum_congr rfl
+  intro a _
+  exact DosLemmas.coefAtom_eq_sum (e q b) a
+
+/-- projected DOS on the 3N Cartesian components (`xyz_projection=True`) add up to the total DOS -/
+theorem pdos_xyz_sum_total (nq nb n : Nat) (W : Fin nq → Fin nb → K) (e : Fin nq → Fin nb → Fin n → Fin 3 → K × K)
+    (hnorm : ∀ q b, ∑ a, ∑ x, Dos.abs2 (e q b a x) = 1) :
+    ∑ a, ∑ x : Fin 3, Dos.projectedDos nq nb n W (fun q a b => Dos.coefXyz (e q b) a x) a = Dos.totalDos nq nb W := by
+  rw [← pdos_atom_sum_total nq nb n W e hnorm]
+  apply Finset.sum_congr rfl
+  intro a _
+  unfold Dos.projectedDos
+  simp only [sumFin_eq, DosLemmas.coefAtom_eq_sum]
+  rw [Finset.sum_comm]
+  apply Finset.sum_congr rfl
+  intro q _
+  rw [Finset.sum_comm]
+  apply Finset.sum_congr rfl
+  intro b _
+  rw [Finset.mul_sum]
+
+/-- a projection on a direction never exceeds the atom's weight: direction-projected DOS ≤ atom-projected DOS -/
+theorem pdos_direction_le_atom (nq nb n : Nat) (W : Fin nq → Fin nb → K) (hW : ∀ q b, 0 ≤ W q b)
+    (e : Fin nq → Fin nb → Fin n → Fin 3 → K × K) (d : Fin 3 → K) (hd : d 0 * d 0 + d 1 * d 1 + d 2 * d 2 = 1) (a : Fin n) :
+    Dos.projectedDos nq nb n W (fun q a b => Dos.coefDir (e q b) d a) a ≤
+      Dos.projectedDos nq nb n W (fun q a b => Dos.coefAtom (e q b) a) a := by
+  unfold Dos.projectedDos
+  simp only [sumFin_eq]
+  exact Finset.sum_le_sum fun q _ => Finset.sum_le_sum fun b _ =>
+    mul_le_mul_of_nonneg_left (DosLemmas.coefDir_le_coefAtom (e q b) d hd a) (hW q b)
+
+/-- projections on an orthonormal triple of Cartesian directions add up to the atom-projected DOS -/
+theorem pdos_direction_triple_eq_atom (nq nb n : Nat) (W : Fin nq → Fin nb → K) (e : Fin nq → Fin nb → Fin n → Fin 3 → K × K)
+    (d : Fin 3 → Fin 3 → K) (hd : ∀ k l, ∑ x, d k x * d l x = if k = l then 1 else 0) (a : Fin n) :
+    ∑ k, Dos.projectedDos nq nb n W (fun q a b => Dos.coefDir (e q b) (d k) a) a =
+      Dos.projectedDos nq nb n W (fun q a b => Dos.coefAtom (e q b) a) a := by
+  unfold Dos.projectedDos
+  simp only [sumFin_eq]
+  rw [Finset.sum_comm]
+  apply Finset.sum_congr rfl
+  intro q _
+  rw [Finset.sum_comm]
+  apply Finset.sum_congr rfl
+  intro b _
+  rw [← Finset.mul_sum, DosLemmas.coefDir_triple (e q b) d hd a]
+
+/-! ### smearing: unit integral of the smearing functions, normalisation of the smearing DOS over ℝ -/
+
+/-- `NormalDistribution.calc` (σ > 0) and `CauchyDistribution.calc` (γ > 0) are non-negative, integrable and
+integrate to 1 over the whole axis -/
+theorem smearing_functions_normalised {s : ℝ} (hs : 0 < s) :
+    (∀ x, 0 ≤ DosLemmas.normalR s x) ∧ MeasureTheory.Integrable (DosLemmas.normalR s) ∧ ∫ x, DosLemmas.normalR s x = 1 ∧
+    (∀ x, 0 ≤ DosLemmas.cauchyR s x) ∧ MeasureTheory.Integrable (DosLemmas.cauchyR s) ∧ ∫ x, DosLemmas.cauchyR s x = 1 :=
+  ⟨DosLemmas.normal_nonneg hs, DosLemmas.normal_integrable hs, DosLemmas.normal_integral hs,
+   DosLemmas.cauchy_nonneg hs, DosLemmas.cauchy_integrable hs, DosLemmas.cauchy_integral hs⟩
+
+/-- the smearing total DOS integrates to the number of bands per primitive cell (both smearing functions; the
+finite frequency grid of the code leaves a quadrature remainder that the check bounds numerically) -/
+theorem smearing_dos_integrates_to_bands (nq nb : Nat) (w : Fin nq → ℝ) (hw : ∑ q, w q ≠ 0) (ν : Fin nq → Fin nb → ℝ)
+    {s : ℝ} (hs : 0 < s) :
+    ∫ ω, Dos.smearingDos nq nb w ν (DosLemmas.normalR s) ω = nb ∧
+    ∫ ω, Dos.smearingDos nq nb w ν (DosLemmas.cauchyR s) ω = nb :=
+  ⟨DosLemmas.smearingDos_integral nq nb w hw ν _ (DosLemmas.normal_integrable hs) (DosLemmas.normal_integral hs),
+   DosLemmas.smearingDos_integral nq nb w hw ν _ (DosLemmas.cauchy_integrable hs) (DosLemmas.cauchy_integral hs)⟩
+
+/-- the frequency points of `Dos.set_draw_area`: equally spaced from `f_min`, all below `f_max + pitch/10`, and the
+next point would pass it — so `f_max` itself is covered -/
+theorem frequency_points_spec (lo hi : ℚ) (sigma freqMin freqMax pitch : Option ℚ) (fmin fmax δ : ℚ)
+    (h1 : fmin = freqMin.getD (lo - sigma.getD ((hi - lo) / 100) * 10))
+    (h2 : fmax = freqMax.getD (hi + sigma.getD ((hi - lo) / 100) * 10))
+    (h3 : δ = pitch.getD ((fmax - fmin) / 200)) (hδ : 0 < δ) :
+    let pts := (Dos.frequencyPoints lo hi sigma freqMin freqMax pitch).2
+    (∀ x ∈ pts, fmin ≤ x ∧ x < fmax + δ / 10) ∧ fmax + δ / 10 ≤ fmin + (pts.length : ℚ) * δ ∧
+    ∀ i (hi : i < pts.length), pts[i] = fmin + (i : ℚ) * δ := by
+  intro pts
+  have hp : pts = Dos.arange fmin (fmax + δ * (1 / 10)) δ := by
+    simp only [pts, Dos.frequencyPoints]; rw [← h1, ← h2, ← h3]
+  obtain ⟨a, b⟩ := DosLemmas.arange_spec fmin (fmax + δ * (1 / 10)) δ hδ
+  have e : fmax + δ * (1 / 10) = fmax + δ / 10 := by ring
+  rw [hp]
+  refine ⟨fun x hx => by rw [← e]; exact a x hx, by rw [← e]; exact b, ?_⟩
+  intro i hi
+  simp [Dos.arange]
+
+/-! ### the tetrahedron method on the mesh: lookups in range, the cell is tiled -/
+
+/-- neighbour lookup of `phpy_tetrahedron_method_dos` / `phpy_get_tetrahedra_frequenies` (`c/rgrid.c`): the vertex
+is a grid point of the mesh and sits at `address + relative address` modulo the mesh numbers, negative offsets
+included — and it is the index the Python `_get_tetrahedra_frequencies_Py` computes. -/
+theorem tetrahedron_vertex_in_range (mesh : Grid.V3 Nat) (s : Grid.V3 Bool) (hx : 0 < mesh.x) (hy : 0 < mesh.y)
+    (hz : 0 < mesh.z) (addr rel : Grid.IV) :
+    TetraMesh.neighbourIndex mesh addr rel = (⟨mesh, s⟩ : Grid.Mesh).index (TetraMesh.addV addr rel) ∧
+    TetraMesh.neighbourIndex mesh addr rel < mesh.x * mesh.y * mesh.z ∧
+    ∃ t : Grid.IV,
+      ((⟨mesh, s⟩ : Grid.Mesh).addr (TetraMesh.neighbourIndex mesh addr rel)).x = addr.x + rel.x + (mesh.x : Int) * t.x ∧
+      ((⟨mesh, s⟩ : Grid.Mesh).addr (TetraMesh.neighbourIndex mesh addr rel)).y = addr.y + rel.y + (mesh.y : Int) * t.y ∧
+      ((⟨mesh, s⟩ : Grid.Mesh).addr (TetraMesh.neighbourIndex mesh addr rel)).z = addr.z + rel.z + (mesh.z : Int) * t.z :=
+  ⟨TetraMesh.neighbourIndex_eq mesh s hx hy hz addr rel, TetraMesh.neighbour_in_range mesh s hx hy hz addr rel⟩
+
+/-- the `gp2ir` loop: every grid point is sent to a valid row of the ir-frequency array, that row belongs to its
+representative, the ir points are the fixed points of the table in increasing order, and `TetrahedronMesh._prepare`
+(dictionary lookup) yields the same indices — for every table with `tab[i] ≤ i`, `tab[tab[i]] = tab[i]`. -/
+theorem gp2ir_in_range (tab : List Nat) (hle : ∀ i, tab.getD i i ≤ i)
+    (hid : ∀ i, tab.getD (tab.getD i i) (tab.getD i i) = tab.getD i i) :
+    let st := TetraMesh.gp2irBuild tab
+    st.gp2ir.length = tab.length ∧ st.irgp = (List.range tab.length).filter (fun i => tab.getD i i = i) ∧
+    (∀ i, i < tab.length → st.gp2ir.getD i 0 < st.irgp.length ∧ st.irgp.getD (st.gp2ir.getD i 0) 0 = tab.getD i i) ∧
+    TetraMesh.gp2irPy tab st.irgp = st.gp2ir :=
+  TetraMesh.gp2ir_spec tab hle hid
+
+/-- certificate on the GENERATED tables (`db_relative_grid_address` of the C source), all four main diagonals: 24
+tetrahedra each, central vertex first, unimodular (volume 1/6 of the cell), and as a set they are exactly the
+translates `T - v` (`v` a vertex of `T`) of the six tetrahedra `sixOf d` of the cell. -/
+theorem tables_are_star_of_six :
+    ∀ d : Fin 4, (TetraMesh.tableOf d).length = 24 ∧
+      ((TetraMesh.tableOf d).all fun t => t.length == 4 && t.getD 0 ⟨9, 9, 9⟩ == (⟨0, 0, 0⟩ : Grid.IV) &&
+        (TetraMesh.det4 t == 1 || TetraMesh.det4 t == -1)) = true ∧
+      TetraMesh.normTable (TetraMesh.tableOf d) = TetraMesh.normTable (TetraMesh.starOf (TetraMesh.sixOf d)) := by
+  decide +kernel
+
+/-- the six tetrahedra of the cell (any main diagonal) tile it: they cover the closed cell and their interiors are
+pairwise disjoint; each has volume 1/6 (`det = ±1`). -/
+theorem six_tetrahedra_tile_cell (d : Fin 4) :
+    (∀ x : Grid.V3 K, TetraMesh.InCube x → ∃ t ∈ TetraMesh.sixOf d, TetraMesh.InTetra t x) ∧
+    (∀ (x : Grid.V3 K) (t t' : List Grid.IV), t ∈ TetraMesh.sixOf d → t' ∈ TetraMesh.sixOf d →
+      TetraMesh.InInterior t x → TetraMesh.InInterior t' x → t = t') ∧
+    ((TetraMesh.sixOf d).all fun t => TetraMesh.det4 t == 1 || TetraMesh.det4 t == -1) = true ∧
+    (TetraMesh.sixOf d).length = 6 :=
+  ⟨fun x hx => TetraMesh.six_cover d hx, fun x t t' ht ht' h h' => TetraMesh.six_interiors_disjoint d ht ht' h h',
+   by fin_cases d <;> decide, by fin_cases d <;> decide⟩
+
+/-- the frequency-point loop of the compiled DOS driver (`c/phonopy.c: phpy_tetrahedron_method_dos`, control
+structure translated on every run): the loop body runs for **every** requested frequency point — no `continue`, no
+early `break` — so the value stored for a point is `visit` of that point alone, whatever the other points and their
+order (ascending, descending, unsorted). -/
+theorem dos_kernel_visits_every_frequency {β : Type} (fmin fmax : K) (visit : K → β) (fp : List K) :
+    TetraC.dos_freq_loop fmin fmax visit fp = fp.map (fun w => some (visit w)) := by
+  induction fp with
+  | nil => rfl
+  | cons w rest ih => simp [TetraC.dos_freq_loop, ih]
+
+/-- consequence: reordering the requested frequencies reorders the results in the same way -/
+theorem dos_kernel_order_independent {β : Type} (fmin fmax : K) (visit : K → β) {fp fp' : List K} (h : fp.Perm fp') :
+    (TetraC.dos_freq_loop fmin fmax visit fp).Perm (TetraC.dos_freq_loop fmin fmax visit fp') := by
+  rw [dos_kernel_visits_every_frequency, dos_kernel_visits_every_frequency]
+  exact h.map _
+
 /-! ### above the spectrum the cumulative weight of a grid point is exactly 1 -/
 
 /-- Python model: ω above all 24×4 vertex values ⇒ weight `24 · ¼ / 6 = 1` (both interval conventions) -/
@@ -284,5 +442,18 @@ end PhononModel.C11
 #print axioms PhononModel.C11.sort_omegas_sorted
 #print axioms PhononModel.C11.pdos_sum_total
 #print axioms PhononModel.C11.dos_nonneg
+#print axioms PhononModel.C11.pdos_atom_sum_total
+#print axioms PhononModel.C11.pdos_xyz_sum_total
+#print axioms PhononModel.C11.pdos_direction_le_atom
+#print axioms PhononModel.C11.pdos_direction_triple_eq_atom
+#print axioms PhononModel.C11.smearing_functions_normalised
+#print axioms PhononModel.C11.smearing_dos_integrates_to_bands
+#print axioms PhononModel.C11.frequency_points_spec
+#print axioms PhononModel.C11.tetrahedron_vertex_in_range
+#print axioms PhononModel.C11.gp2ir_in_range
+#print axioms PhononModel.C11.tables_are_star_of_six
+#print axioms PhononModel.C11.six_tetrahedra_tile_cell
+#print axioms PhononModel.C11.dos_kernel_visits_every_frequency
+#print axioms PhononModel.C11.dos_kernel_order_independent
 #print axioms PhononModel.C11.cumulative_above_top
 #print axioms PhononModel.C11.cumulative_above_top_c
